@@ -65,6 +65,7 @@ def evalTmpl (t : J) (env : Bs) : Except LErr J :=
       (match Obj.get? o "x" with
        | some (.str x) =>
          match env.get? x with
+         | some .null => .ok (.bool false)      -- the script sees `undefined`
          | some b => .ok (.bool (b.isScalar && b == (Obj.get? o "v").getD .null))
          | none => .error "script"
        | _ => .error "script")
@@ -72,6 +73,9 @@ def evalTmpl (t : J) (env : Bs) : Except LErr J :=
       (match Obj.get? o "x", Obj.get? o "k" with
        | some (.str x), some (.str k) =>
          match env.get? x with
+         -- a variable bound to null reaches the script as `undefined` (otto's value of a Go nil), and an undefined
+         -- property is dropped when the object is exported: no binding is added
+         | some .null => .ok (.obj [])
          | some b => .ok (.obj [(k, b)])
          | none => .error "script"
        | _, _ => .error "script")
@@ -83,6 +87,9 @@ def evalTmpl (t : J) (env : Bs) : Except LErr J :=
     -- `Env.AddFact(id, fact)`: the value is the id; the effect on the location is applied by the caller of the
     -- event model (Driver/Loc.lean), which turns a refused add into a failed action
     | some (.str "addfact") => .ok ((Obj.get? o "id").getD .null)
+    -- `Env.AddRule(id, rule)` / `Env.RemFact(id)`: likewise, the value is the id and the effect is applied by the caller
+    | some (.str "addrule") => .ok ((Obj.get? o "id").getD .null)
+    | some (.str "remfact") => .ok ((Obj.get? o "id").getD .null)
     | some (.str "throw") => .error "script"
     | _ => .error "script"
   | _ => .error "script"
